@@ -874,7 +874,8 @@ func (p *parser) parseAction(kind string) (Action, *SyntaxError) {
 			if v.kind == tEOF {
 				return Action{}, serr(ReasonDangling, "%s action without a value", kind)
 			}
-			if v.kind == tIdent && !isAnyKw(v, updKeywords) || v.kind == tAlias {
+			if v.kind == tIdent && !isAnyKw(v, updKeywords) || v.kind == tAlias || v.kind == tNumber {
+				// (a bare literal is a digit-leading name to the implementation's lexer)
 				return Action{}, serr(ReasonPathAsValue, "%s needs a :value operand, got %q at %d", kind, v.text, v.pos)
 			}
 			return Action{}, serr(ReasonBadUpdate, "%s needs a :value operand, got %q at %d", kind, v.text, v.pos)
